@@ -102,14 +102,33 @@ package keeper
 //@     && (!due ==> Store_oracle == s1))
 //@ ensures err != nil ==> Store_oracle == old(Store_oracle)
 
-// Resolution runs the oracle script (external VM) and saves exactly one result for a request that has
-// none; it needs the request record. (Body not verified: owasm VM, IBC; see C13/C02 for the signing part.)
-//@ func (k Keeper) ResolveRequest
+// The oracle script runs in an external VM (go-owasm): what it does is not modelled, only what it hands back. Ghosts:
+// the error of the last run (0 = none) and the return data the script left in the environment object.
+//@ ghost VMErr Int
+//@ ghost VMRet Bz
+//@ extern (vm github.com/bandprotocol/go-owasm/api.Vm) Execute(code, gasLimit, env) (output, err)
+//@ modifies env, VMErr, VMRet
+//@ ensures err == VMErr && env.Retdata == VMRet
+//@ func (k Keeper) GetReports
 //@ trusted
-//@ modifies Store_oracle, Other, Bank
+//@ func (k Keeper) GetFile
+//@ trusted
+//@ func (k Keeper) handleCreateSigningFailed
+//@ trusted
+//@ modifies Store_oracle
+//@ ensures forall q Bz :: q != types.SigningResultStoreKey(id) ==> Store_oracle[q] == old(Store_oracle)[q]
+
+// Resolution saves exactly one result for a request that has none (it needs the request record): SUCCESS carrying
+// exactly the script's return data when the script ran without error AND set return data (an EMPTY answer is an
+// answer); FAILURE with no data otherwise. Nothing but the result (and the signing result) record is written.
+//@ func (k Keeper) ResolveRequest
+//@ may_panic calls
+//@ modifies Store_oracle, Other, Bank, VMErr, VMRet
 //@ requires has(Store_oracle, types.RequestStoreKey(reqID)) && !has(Store_oracle, types.ResultStoreKey(reqID))
 //@ ensures  has(Store_oracle, types.ResultStoreKey(reqID))
 //@ ensures  forall q Bz :: q != types.ResultStoreKey(reqID) && q != types.SigningResultStoreKey(reqID) ==> Store_oracle[q] == old(Store_oracle)[q]
+//@ ensures  (VMErr == 0 && VMRet != nil) ==> resultAt(Store_oracle, reqID).ResolveStatus == types.RESOLVE_STATUS_SUCCESS && resultAt(Store_oracle, reqID).Result == VMRet
+//@ ensures  !(VMErr == 0 && VMRet != nil) ==> resultAt(Store_oracle, reqID).ResolveStatus == types.RESOLVE_STATUS_FAILURE && len(resultAt(Store_oracle, reqID).Result) == 0
 
 // deleting a request's reports removes report records of THAT request only (iterator + delete loops: body not verified)
 //@ func (k Keeper) DeleteReports
@@ -219,7 +238,7 @@ package keeper
 // begin-blocker cannot panic on rounding).
 // Range assumption on CometBFT vote infos: powers between 0 and 2^50, at most 4096 votes.
 //@ func (k Keeper) AllocateTokens
-//@ may_panic
+//@ may_panic calls
 //@ uses psumExt, psumStep
 //@ modifies Bank, Other, DistrReceived, DistrAllocated
 //@ requires len(previousVotes) <= 4096 && (forall j :: 0 <= j && j < len(previousVotes) ==> 0 <= previousVotes[j].Validator.Power && previousVotes[j].Validator.Power <= 1125899906842624)
